@@ -89,10 +89,20 @@ def run(main, max_vtime=3600.0):
     _time.monotonic = loop.time
     _time.time = lambda: 1_600_000_000.0 + loop.time()
     asyncio.set_event_loop(loop)
+    # the v2 record builder binds time.time as a default argument at import time
+    _defaults = None
+    try:
+        from aiokafka.record.default_records import _DefaultRecordBatchBuilderPy as _B
+        _defaults = _B.append.__defaults__
+        _B.append.__defaults__ = tuple((_time.time if d is saved[1] else d) for d in _defaults)
+    except Exception:  # noqa: BLE001
+        _B = None
     try:
         return loop.run_until_complete(main(loop))
     finally:
         _time.monotonic, _time.time = saved
+        if _B is not None and _defaults is not None:
+            _B.append.__defaults__ = _defaults
         try:
             # cancel whatever the harness left behind so that nothing leaks into the next path
             for t in asyncio.all_tasks(loop):
